@@ -321,12 +321,12 @@ class MindsDBLexer(Lexer):
 
     @_(r"'(?:\\.|[^'])*(?:''(?:\\.|[^'])*)*'")
     def QUOTE_STRING(self, t):
-        t.value = t.value.replace('\\"', '"').replace("\\'", "'").replace("''", "'")
+        # the token keeps its source text; un-escaping is done by the grammar action `quote_string`
         return t
 
     @_(r'"(?:\\.|[^"])*"')
     def DQUOTE_STRING(self, t):
-        t.value = t.value.replace('\\"', '"').replace("\\'", "'")
+        # the token keeps its source text; un-escaping is done by the grammar action `dquote_string`
         return t
 
     @_(r'\n+')
@@ -339,14 +339,7 @@ class MindsDBLexer(Lexer):
        r'@"[a-zA-Z_.$][^"]*"'
        )
     def VARIABLE(self, t):
-        t.value = t.value.lstrip('@')
-
-        if t.value[0] == '"':
-            t.value = t.value.strip('\"')
-        elif t.value[0] == "'":
-            t.value = t.value.strip('\'')
-        elif t.value[0] == "`":
-            t.value = t.value.strip('`')
+        # the token keeps its source text (sigil and quotes); see `variable_name` in the parser
         return t
 
     @_(r'@@[a-zA-Z_.$]+',
@@ -355,14 +348,7 @@ class MindsDBLexer(Lexer):
        r'@@"[a-zA-Z_.$][^"]*"'
        )
     def SYSTEM_VARIABLE(self, t):
-        t.value = t.value.lstrip('@')
-
-        if t.value[0] == '"':
-            t.value = t.value.strip('\"')
-        elif t.value[0] == "'":
-            t.value = t.value.strip('\'')
-        elif t.value[0] == "`":
-            t.value = t.value.strip('`')
+        # the token keeps its source text (sigil and quotes); see `variable_name` in the parser
         return t
 
     def error(self, t):
